@@ -30,7 +30,10 @@ def handleMfBt4 (a : Args) : String :=
     | some dict, some nice, some depth, some mlmax, some data, some script =>
       let dataA : Array UInt8 := (data.map fun b => UInt8.ofNat b).toArray
       let c : Bt4.Cfg := { dict := dict, niceLen := nice, mlmax := mlmax, depth := depth }
-      let (_, tr) := Bt4.runScript MfGen.bt4Params c dataA script
+      -- `lzstart=<n>`: the renormalising model (`Model/Bt4Renorm.lean`) started at `lz_pos = n`
+      let (_, tr) := match a.nat? "lzstart" with
+        | some lz => Bt4.runScriptN MfGen.bt4Norm MfGen.bt4Params c dataA lz script
+        | none => Bt4.runScript MfGen.bt4Params c dataA script
       let nm := tr.foldl (fun n e => n + e.2.length) 0
       let base := s!"ok {tr.length} {nm} {mfTraceFnv tr}"
       let base := if a.nat? "check" == some 1 then
